@@ -56,6 +56,10 @@ pub struct Sc {
     /// cannot return EINTR in a deployment (DESIGN 10); kept for experiments via a replay file.
     #[serde(default)]
     pub eintr_every: u32,
+    /// Some(h): every run learns "today" from the simulated system clock and TZ (h hours west of
+    /// UTC) through the real today_local(), not through the library's test override.
+    #[serde(default)]
+    pub clock_tz: Option<i8>,
     pub runs: Vec<Run>,
 }
 
@@ -199,7 +203,7 @@ pub fn generate(seed: u64, index: u64) -> Sc {
             kill_seed: if faulty && r.chance(1, 8) { Some(r.next_u64()) } else { None },
         });
     }
-    Sc { cal, format, cache, max_write: *r.pick(&[usize::MAX, usize::MAX, 4096, 512, 7]), max_read: *r.pick(&[usize::MAX, usize::MAX, 4096, 512, 7]), faulty, runs, eintr_every: 0 }
+    Sc { cal, format, cache, max_write: *r.pick(&[usize::MAX, usize::MAX, 4096, 512, 7]), max_read: *r.pick(&[usize::MAX, usize::MAX, 4096, 512, 7]), faulty, runs, eintr_every: 0, clock_tz: if r.chance(1, 4) { Some(*r.pick(&[5i8, 8, 12, -1, -9, -13])) } else { None } }
 }
 
 fn bucket(n: i64) -> &'static str {
@@ -251,6 +255,9 @@ impl Engine for C13 {
         let mut prev_today: Option<(Date, bool)> = None;
         let mut fs_fault_seen_before = false;
         let mut after_kill_dates: Vec<Date> = vec![];
+        if sc.clock_tz.is_some() {
+            st.bump("probe.history_with_today_from_the_system_clock");
+        }
         // year -> (today, published_today) of the latest successful download of that year by a run
         // whose cache write was not disturbed by an injected file-system error
         let mut downloaded_on: BTreeMap<i32, (Date, bool)> = BTreeMap::new();
@@ -344,7 +351,7 @@ impl Engine for C13 {
                     app_date_fmt: 0,
                     net_faults: run.net_faults.clone(),
                     server_today: None,
-                    clock_tz: None,
+                    clock_tz: sc.clock_tz,
                     fs_faults: dry_faults,
                     knobs: Knobs { max_write: sc.max_write, max_read: sc.max_read, eintr_every: sc.eintr_every },
                     hash_seed: run.hash_seed,
@@ -373,7 +380,7 @@ impl Engine for C13 {
                 app_date_fmt: 0,
                 net_faults: run.net_faults.clone(),
                 server_today: None,
-                clock_tz: None,
+                clock_tz: sc.clock_tz,
                 fs_faults: fs_faults.clone(),
                 knobs: Knobs { max_write: sc.max_write, max_read: sc.max_read, eintr_every: sc.eintr_every },
                 hash_seed: run.hash_seed,
@@ -701,6 +708,11 @@ impl Engine for C13 {
             s.eintr_every = 0;
             c.push(s);
         }
+        if sc.clock_tz.is_some() {
+            let mut s = sc.clone();
+            s.clock_tz = None;
+            c.push(s);
+        }
         if sc.cache == CacheKind::Csv {
             let mut s = sc.clone();
             s.cache = CacheKind::Mem;
@@ -750,7 +762,7 @@ impl Engine for C13 {
         "exploration"
     }
     fn rule(&self) -> String {
-        "Seeded histories: a publication calendar (as for C12), then 1-8 runs; run r is a fresh simulated process on today_r = today_{r-1} + gap (gap weighted over 0,1,2,3,4-10,11-40,~365 days), with a published-today flag (monotone within a day), force flag (p=0.15), direct or application path (p=1/3; rows spread over 1-3 CSV files sharing one loader, row variants: USD without rate, USD with explicit rate, CAD trade with USD commission, USD trade + USD commission), and 1-8 look-up dates drawn relative to today (-9..+2), to the predicted frontier of each cached year (-3..+9), to year ends, to earlier look-ups, in ascending/descending/generated order; cache = real CsvRatesCache over SimFs (2/3) or real InMemoryRatesCache carried across processes (1/3); legal short reads/writes as a knob. Two of three histories are fault-free; every third (index % 3 == 2) injects network faults (error, HTML body, truncated JSON, empty body; p=1/4 per request) and, in a quarter of its runs, one file-system fault kind (EACCES on open-for-write/mkdir/open-for-read, ENOSPC after N bytes, EIO on rename/fsync/read). One run in eight of a faulty history is killed at a seeded point of its journalled file-system activity (only that prefix survives, the last write possibly cut) and the history goes on. Oracle: each look-up equals the same look-up by the real code with no cache (fresh process, empty cache, forced) on the same snapshot; an Err is tolerated only for a look-up during or after which an injected network fault fired in the same run (never in a later run); successful downloads per (run, year) <= 1; when not forced, no request for a year whose needed dates (reference-model touched set) were all in the persisted cache at the start of the run, nor for a year that an earlier run downloaded successfully (cache write undisturbed) on a day after all the needed dates. evaluations = histories; distinct_nontrivial = distinct histories in which some run started from a non-empty persisted cache.".to_string()
+        "Seeded histories: a publication calendar (as for C12), then 1-8 runs; run r is a fresh simulated process on today_r = today_{r-1} + gap (gap weighted over 0,1,2,3,4-10,11-40,~365 days), with a published-today flag (monotone within a day), force flag (p=0.15), direct or application path (p=1/3; rows spread over 1-3 CSV files sharing one loader, row variants: USD without rate, USD with explicit rate, CAD trade with USD commission, USD trade + USD commission), and 1-8 look-up dates drawn relative to today (-9..+2), to the predicted frontier of each cached year (-3..+9), to year ends, to earlier look-ups, in ascending/descending/generated order; cache = real CsvRatesCache over SimFs (2/3) or real InMemoryRatesCache carried across processes (1/3); legal short reads/writes as a knob. Two of three histories are fault-free; every third (index % 3 == 2) injects network faults (error, HTML body, truncated JSON, empty body; p=1/4 per request) and, in a quarter of its runs, one file-system fault kind (EACCES on open-for-write/mkdir/open-for-read, ENOSPC after N bytes, EIO on rename/fsync/read). One run in eight of a faulty history is killed at a seeded point of its journalled file-system activity (only that prefix survives, the last write possibly cut) and the history goes on; the run after a kill first asks for the last dates of the surviving cache files. In a quarter of the histories 'today' comes from the simulated system clock and TZ through the real today_local(). Oracle: each look-up equals the same look-up by the real code with no cache (fresh process, empty cache, forced) on the same snapshot; an Err is tolerated only for a look-up during or after which an injected network fault fired in the same run (never in a later run); successful downloads per (run, year) <= 1; when not forced, no request for a year whose needed dates (reference-model touched set) were all in the persisted cache at the start of the run, nor for a year that an earlier run downloaded successfully (cache write undisturbed) on a day after all the needed dates. evaluations = histories; distinct_nontrivial = distinct histories in which some run started from a non-empty persisted cache.".to_string()
     }
     fn state_measure(&self) -> String {
         "distinct (look-up date minus cached-year frontier bucket, date minus today bucket, published flag, force, year-loaded-from-cache-earlier-in-run, outcome class) tuples over direct look-ups".to_string()
